@@ -439,6 +439,15 @@ C04_NoRedo == ~redoBad
 \* nothing is lost or duplicated by a restart: graph and persisted statuses are untouched
 C04_RestartKeeps == [][Restart => status' = status /\ waited' = waited /\ atTime' = atTime /\ UNCHANGED graphVars]_vars
 
+\* C07 ------------------------------------------------------------------
+Conflict(a, b) ==
+  /\ a # b
+  /\ \/ kind[a] = "hook" /\ kind[b] = "hook" /\ snap[a] = snap[b]
+     \/ kind[a] = "iface" /\ kind[b] = "iface"
+     \/ kind[a] = "prereq" /\ kind[b] = "prereq"
+     \/ kind[a] = "gadget" \/ kind[b] = "gadget"
+C07 == \A a, b \in running : ~Conflict(a, b)
+
 TypeOK ==
   /\ status \in [Tasks -> Status]
   /\ waited \in [Tasks -> Status]
